@@ -73,6 +73,14 @@ func scenarios(tier string) []scenario {
 	}
 	pres := []string{"base", "wd-other", "no-rewards"}
 	dirties := []string{"none", "signer", "withdrawer"}
+	if tier == "thorough" {
+		// more amount classes: the smallest amount above 1 and an odd mid amount
+		for i := range ms {
+			if len(ms[i].amts) > 1 {
+				ms[i].amts = append(ms[i].amts, "2", "mid-odd")
+			}
+		}
+	}
 	for _, topo := range []string{"direct", "one", "two"} {
 		v0s, v1s := []int64{0, 1000}, []int64{0}
 		if topo == "direct" {
@@ -80,6 +88,13 @@ func scenarios(tier string) []scenario {
 		}
 		if topo == "two" {
 			v1s = []int64{0, 400}
+		}
+		if tier == "thorough" && topo != "direct" {
+			// a tiny attached value, and (two frames) the root forwarding everything it received
+			v0s = append(v0s, 7)
+			if topo == "two" {
+				v1s = append(v1s, 7, 1000)
+			}
 		}
 		for _, v0 := range v0s {
 			for _, v1 := range v1s {
@@ -114,6 +129,9 @@ func scenarios(tier string) []scenario {
 									}
 									if d != "none" && v0 == 0 {
 										continue // the dirtying send needs funds in the root frame
+									}
+									if d != "none" && topo == "two" && v1 == v0 {
+										continue // ... and leaves too little to forward everything
 									}
 									out = append(out, scenario{topo, v0, v1, mm.name, named, a, pre, d, ""})
 									// the root pays out everything it holds after the precompile call: its balance
@@ -229,6 +247,10 @@ func (r *runner) build(sc scenario) (root *calltree.Frame, leaf *calltree.Leaf, 
 		amt = big.NewInt(1)
 	case "mid":
 		amt = big.NewInt(300)
+	case "2":
+		amt = big.NewInt(2)
+	case "mid-odd":
+		amt = big.NewInt(333)
 	case "all":
 		amt = balNamed.BigInt()
 	case "all+1":
